@@ -1,6 +1,9 @@
 package main
 
 import (
+	"os"
+	"golang.org/x/sys/unix"
+	"syscall"
 	"bytes"
 	"crypto"
 	"encoding/json"
@@ -38,6 +41,7 @@ type c15Out struct {
 	HitOp   string   `json:"hit_op"`
 	Err     string   `json:"err"`
 	Verdict string   `json:"verdict"` // "" ok, else kind|message
+	Skipped string   `json:"skipped,omitempty"` // the environment cannot host this operation (reported, not judged)
 }
 
 var c15Images = []string{"test.pecoff", "signed", "HelloWorld", "gen>64K"}
@@ -273,10 +277,44 @@ func c15Op(c *WCase, res *WResult) {
 			afero.WriteFile(mem, path, withAttrs(7, value), 0o644)
 		}
 		ffs := fault.NewFs(mem)
+		immutable := false
+		if strings.HasSuffix(op, ".immutable") {
+			// the variable file exists on a real filesystem and carries the immutable inode flag;
+			// the store is configured to clear it before writing (CheckImmutable().UnsetImmutable())
+			op = strings.TrimSuffix(op, ".immutable")
+			dir, derr := os.MkdirTemp("", "vcheck-imm-")
+			if derr != nil {
+				out.Skipped = "mktemp: " + derr.Error()
+				return
+			}
+			attributes.Efivars = dir
+			path = dir + "/" + v.Name + "-" + v.GUID.Format()
+			defer func() {
+				setImmutableFlag(path, false)
+				os.RemoveAll(dir)
+				useFakeEfivarsDir()
+			}()
+			if werr := os.WriteFile(path, withAttrs(7, []byte("old value")), 0o644); werr != nil {
+				out.Skipped = "cannot create the variable file: " + werr.Error()
+				return
+			}
+			if serr := setImmutableFlag(path, true); serr != nil {
+				out.Skipped = "the immutable inode flag cannot be set here: " + serr.Error()
+				return
+			}
+			ffs = fault.NewFs(afero.NewOsFs())
+			immutable = true
+		}
 		if !strings.HasSuffix(op, ".signer") { // for the signer ops the filesystem itself is healthy
 			ffs.Plan = fault.Plan{K: k, Persistent: persistent, Mode: mode}
+			if en, _ := strconv.Atoi(c.P["errno"]); en != 0 {
+				ffs.Plan.Err = syscall.Errno(en) // surfaces as *os.PathError, the way the os package reports it
+			}
 		}
 		e := efivarfs.NewFS()
+		if immutable {
+			e = efivarfs.NewFS().CheckImmutable().UnsetImmutable()
+		}
 		e.SetFS(ffs)
 		efifs.SetFS(ffs)
 		var err error
@@ -355,7 +393,11 @@ type c15Plan struct {
 	op, mode   string
 	k          int
 	persistent bool
+	errno      int // 0 = the harness's own error value
 }
+
+// errnos a filesystem call can fail with; none of them means "done"
+var c15Errnos = []syscall.Errno{syscall.EINTR, syscall.EAGAIN, syscall.EBUSY, syscall.ENOSPC, syscall.EIO, syscall.EACCES, syscall.EINVAL, syscall.EROFS}
 
 func checkC15(r *mon.Run) {
 	r.Rule = "for each operation (SignPKCS7, SignAuthenticode, PECOFFBinary.Sign, SignEFIVariable, WriteVar, WriteSignedUpdate, GetVarWithAttributes, the legacy attributes.* twins, authenticode.Parse / Hash / Sign / Verify over a faulty io.ReaderAt on 4 image classes incl. >32 KiB and >64 KiB) the dependency-call sequence is learnt from a fault-free run with counting wrappers, then EVERY position k of that sequence is failed, transient and persistent, in every applicable mode (error; short write n<len,nil; short with error; partial read with error; benign short read). Oracle: error returned (Hash: nil digest), process alive, no value returned with the failure, failed Sign leaves Signatures()/Bytes()/Datadir as before, failed signed update issues no OpenFile/Write. distinct = (operation, dependency, call kind, k, mode) whose fault was reached"
@@ -363,7 +405,7 @@ func checkC15(r *mon.Run) {
 	r.Exhaustive()
 	useFakeEfivarsDir()
 	var ops []string
-	ops = append(ops, "sign.pkcs7", "sign.authenticode", "sign.authenticode.reader", "var.sign", "write.object", "write.legacy", "write.object.append", "write.legacy.append", "write.object.empty", "write.legacy.empty", "write.object.big", "write.legacy.big", "write.signedupdate.fs", "write.signedupdate.signer", "read.object", "read.legacy")
+	ops = append(ops, "sign.pkcs7", "sign.authenticode", "sign.authenticode.reader", "var.sign", "write.object", "write.legacy", "write.object.append", "write.legacy.append", "write.object.empty", "write.legacy.empty", "write.object.big", "write.legacy.big", "write.object.immutable", "write.signedupdate.fs", "write.signedupdate.signer", "read.object", "read.legacy")
 	imgs := c15Images
 	if !r.Thorough() {
 		imgs = []string{"test.pecoff", "signed", "HelloWorld"}
@@ -388,6 +430,11 @@ func checkC15(r *mon.Run) {
 			r.Inconclusive("fault-free run of %s: %s %s", op, bres[i].Outcome, bres[i].Panic)
 			continue
 		}
+		if o.Skipped != "" {
+			r.Note("operation %s not hosted by this environment: %s", op, o.Skipped)
+			r.Count("operations_skipped_by_environment", 1)
+			continue
+		}
 		if o.Verdict != "" {
 			r.Inconclusive("fault-free run of %s: %s", op, o.Verdict)
 			continue
@@ -407,9 +454,19 @@ func checkC15(r *mon.Run) {
 		}
 		for k := 1; k <= o.N; k++ {
 			for _, m := range modes {
-				plans = append(plans, c15Plan{op, m, k, false})
+				plans = append(plans, c15Plan{op, m, k, false, 0})
 				if !strings.Contains(op, "reader") && o.N > 1 && m != "short-read" {
-					plans = append(plans, c15Plan{op, m, k, true})
+					plans = append(plans, c15Plan{op, m, k, true, 0})
+				}
+				// filesystem operations: the same position failing with each errno (a retry loop,
+				// an errno-specific branch or an error mapping must still end in an error)
+				if (strings.HasPrefix(op, "write.") || strings.HasPrefix(op, "read.")) && !strings.Contains(op, "signer") && (m == "error" || m == "short-error") {
+					for _, en := range c15Errnos {
+						plans = append(plans, c15Plan{op, m, k, true, int(en)})
+						if m == "error" {
+							plans = append(plans, c15Plan{op, m, k, false, int(en)})
+						}
+					}
 				}
 			}
 		}
@@ -427,6 +484,9 @@ func checkC15(r *mon.Run) {
 		if p.persistent {
 			pp["persistent"] = "1"
 		}
+		if p.errno != 0 {
+			pp["errno"] = strconv.Itoa(p.errno)
+		}
 		cases[i] = WCase{Entry: "c15.op", P: pp}
 	}
 	res := runBatches(r, cases, 40, 16)
@@ -437,6 +497,10 @@ func checkC15(r *mon.Run) {
 		tr := "transient"
 		if p.persistent {
 			tr = "persistent"
+		}
+		if p.errno != 0 {
+			tr += "/" + syscall.Errno(p.errno).Error()
+			r.Count("faults_with_errno", 1)
 		}
 		replay := map[string]any{"op": p.op, "k": p.k, "mode": p.mode, "persistence": tr, "fault_free_sequence": seqs[p.op].Kinds}
 		if rs.Outcome != "ret" {
@@ -484,4 +548,24 @@ func opClass(op string) string {
 		return "image." + p[1]
 	}
 	return op
+}
+
+// setImmutableFlag sets or clears FS_IMMUTABLE_FL on a file (needs CAP_LINUX_IMMUTABLE and a
+// filesystem with inode flags).
+func setImmutableFlag(path string, on bool) error { // 0x10 = FS_IMMUTABLE_FL
+	f, err := os.Open(path)
+	if err != nil {
+		return err
+	}
+	defer f.Close()
+	fl, err := unix.IoctlGetInt(int(f.Fd()), unix.FS_IOC_GETFLAGS)
+	if err != nil {
+		return err
+	}
+	if on {
+		fl |= 0x10
+	} else {
+		fl &^= 0x10
+	}
+	return unix.IoctlSetPointerInt(int(f.Fd()), unix.FS_IOC_SETFLAGS, fl)
 }
